@@ -7,7 +7,7 @@ from ..refmodel import RefLP, eao_point
 from ..canon import Snap
 
 PROPERTY = 'C20'
-CASES = {'quick': 144, 'thorough': 2000}
+CASES = {'quick': 432, 'thorough': 3456}
 BUDGET_S = {'quick': 240, 'thorough': 2400}
 RULE = ('case = one order book (1-25 orders: buy/sell, overlapping, partly or wholly outside the horizon, zero capacity; full execution in a '
         'quarter of the cases) at any position in a random portfolio with market / storage / contract companions on hourly..daily grids; '
@@ -18,8 +18,8 @@ RULE = ('case = one order book (1-25 orders: buy/sell, overlapping, partly or wh
         'fraction > 1e-6; distinct = spec hashes.')
 ASSUMPTIONS = ['orders are given zone-aware on zone-aware grids (EAO compares them with the grid points directly)',
                'value tolerance 1e-5 (MIP 2e-4) relative']
-MIN_NONVACUOUS = {'quick': {'orders.dispatch_is_sum_of_executed_orders': 70, 'orders.costs_reported': 70, 'orders.value_equals_reference': 70,
-                            'orders.inert_outside_horizon': 40, 'orders.full_exec_integral': 12},
+MIN_NONVACUOUS = {'quick': {'orders.dispatch_is_sum_of_executed_orders': 175, 'orders.costs_reported': 175, 'orders.value_equals_reference': 175,
+                            'orders.inert_outside_horizon': 100, 'orders.full_exec_integral': 30},
                   'thorough': {'orders.dispatch_is_sum_of_executed_orders': 1000, 'orders.value_equals_reference': 1000, 'orders.inert_outside_horizon': 600}}
 
 
